@@ -333,7 +333,15 @@ def expected_forms(d, s1, g, n):
                 pa, pb = spec_pos(s1, min(a, len(s1))), spec_pos(s1, min(b, len(s1)))
                 opts.append([style, f, pa[0], pa[1], a, pb[0], pb[1], b, msg])
         forms = [fs + [o] for fs in forms for o in opts]
-    return [canon_diag(d, fs) for fs in forms[:16]]
+    out = [canon_diag(d, fs) for fs in forms[:16]]
+    # a help/note text may QUOTE the source (Location.GetText of an expression): the quotation then contains the inserted text
+    if d["help"] and g >= 0 and n > 0:
+        tt = s1[g:g + n].decode("utf8", "replace")
+        h = d["help"]
+        for k in range(len(h) + 1):
+            d2 = dict(d, help=h[:k] + tt + h[k:])
+            out += [canon_diag(d2, fs) for fs in forms[:4]]
+    return out
 
 def check_diags(s0, s1, g, n, d0, d1):
     """(B) verdict and diagnostics. Returns None or description."""
@@ -464,9 +472,9 @@ def main(run):
     work = Work()
     texts = Texts(work)
     quick = run.tier == "quick"
-    n_gen = 8 if quick else 120
-    n_mut = 1 if quick else 4
-    n_ins = 5 if quick else 14
+    n_gen = 8 if quick else 60
+    n_mut = 1 if quick else 3
+    n_ins = 5 if quick else 10
     run.rule = ("a case is (program text, byte offset of a token gap, inserted trivia); distinct = hash of the triple; "
                 "non-trivial = the insertion is not empty and the program has at least 3 tokens")
     run.trusted += ["hooks/lexgaps/main.go (calls lexer.New(...).Tokenize and the -t pipeline, prints tokens/diagnostics as structure)",
@@ -584,7 +592,7 @@ def main(run):
     acc = [(c, s1) for c, s1 in zip(cases, news) if diag_all[c["s"]].get("ok") and c["kind"] in ("base", "tabbed")
            and b"fn main" in c["s"] and not c["name"].startswith("smoke:17") and not c["name"].startswith("smoke:18")]
     run.rng.shuffle(acc)
-    acc = acc[: (6 if quick else 40)]
+    acc = acc[: (4 if quick else 40)]
     reqs = []; exes = {}
     for i, (c, s1) in enumerate(acc):
         for j, b in enumerate((c["s"], s1)):
@@ -602,6 +610,13 @@ def main(run):
                 else:
                     outs.append(("build failed", r["out"][-300:] + (r["panic"] or "")[:300]))
             run.count("native-compared")
+            if outs[0] != outs[1]:
+                # confirm with the real CLI, sequentially (a transient assembler/linker failure under load is not a verdict)
+                outs = []
+                for j, b in enumerate((c["s"], s1)):
+                    r = common.compile_and_run(b.decode("utf8"), work, "confirm_%d_%d" % (i, j))
+                    outs.append((r.get("rc"), r.get("out")) if r["accepted"] and r.get("exe_exists") else ("build failed", r["cerr"][-300:]))
+                run.count("native-reconfirmed")
             if outs[0] != outs[1] and (outs[0][0] != "build failed" or outs[1][0] != "build failed"):
                 report(run, "output:%s:%d:%s" % (c["name"], c["g"], c["t"].hex()),
                        "program output changed by inserting %r at byte %d of %s: %r -> %r" % (
